@@ -136,16 +136,17 @@ func genC14(r *mrand.Rand, i int) c14Case {
 	if !isPlus(c.Mech) && r.Intn(2) == 0 && (isScram(c.Mech) || c.Mech == "CRAM-MD5" || c.Mech == "XOAUTH2") {
 		c.TLSVersion = "none"
 	}
-	if c.Mech == "AUTODISCOVER" {
-		c.Via = "client"
-	}
 	switch r.Intn(6) {
+	case 3:
+		// the same mail.Client dialled twice (closed in between): every dial-up authenticates afresh, for the -PLUS
+		// variants against the TLS connection of that dial-up
+		c.Via = "client-redial"
 	case 0:
-		if !isPlus(c.Mech) {
+		if !isPlus(c.Mech) && c.Mech != "AUTODISCOVER" {
 			c.Via = "direct"
 		}
 	case 1, 2:
-		if !isPlus(c.Mech) {
+		if !isPlus(c.Mech) && c.Mech != "AUTODISCOVER" {
 			c.Via = "retry"
 			vars := []string{"same", "first-454-step1", "first-454-step2", "first-535-final", "first-drop-step1"}
 			if isScram(c.Mech) {
@@ -265,7 +266,7 @@ func runC14Case(r *ev.Run, c c14Case, nonces *c14Nonces) {
 	defer farm.Shutdown()
 	var errs []error
 	switch c.Via {
-	case "client":
+	case "client", "client-redial":
 		opts := []mail.Option{mail.WithDialContextFunc(farm.Dial), mail.WithTimeout(8 * time.Second), mail.WithHELO("client.verif.example"),
 			mail.WithSMTPAuth(authTypeFor(c.Mech)), mail.WithUsername(c.User), mail.WithPassword(c.Pass)}
 		if c.TLSVersion != "none" {
@@ -278,12 +279,18 @@ func runC14Case(r *ev.Run, c c14Case, nonces *c14Nonces) {
 			r.HarnessError("C14 NewClient: " + err.Error())
 			return
 		}
-		ctx, cancel := context.WithTimeout(context.Background(), 20*time.Second)
-		err = cl.DialWithContext(ctx)
-		cancel()
-		errs = append(errs, err)
-		if err == nil {
-			_ = cl.Close()
+		dials := 1
+		if c.Via == "client-redial" {
+			dials = 3
+		}
+		for d := 0; d < dials; d++ {
+			ctx, cancel := context.WithTimeout(context.Background(), 20*time.Second)
+			err = cl.DialWithContext(ctx)
+			cancel()
+			errs = append(errs, err)
+			if err == nil {
+				_ = cl.Close()
+			}
 		}
 	case "direct", "retry":
 		var auth smtp.Auth
@@ -415,7 +422,7 @@ func runC14Case(r *ev.Run, c c14Case, nonces *c14Nonces) {
 
 func runC14(r *ev.Run, rep *ev.ReplayDoc) ev.Summary {
 	sum := ev.Summary{
-		Rule: "seeded exchanges: mechanism (PLAIN, LOGIN, CRAM-MD5, XOAUTH2, SCRAM-SHA-1/-256, both -PLUS variants) x user/password classes (ASCII, ',' and '=', blanks, UTF-8, strings with a profile-independent normal form (U+00A0, decomposed accents), long, inadmissible: controls/empty) x right/wrong server secret x salt length 0-64 x iteration count 1-20000 (log-uniform) x server nonce suffixes x CRAM challenges x TLS 1.2 (tls-unique) / TLS 1.3 (tls-exporter) / none, through mail.Client (WithSMTPAuth), smtp.Client.Auth directly and twice with the same Auth object. The reference verifiers (internal/sasl) run at the reference server; the channel binding is computed from the SERVER side of the same TLS connection. distinct by case signature",
+		Rule: "(mail.Client also dialled three times in a row with Close in between) seeded exchanges: mechanism (PLAIN, LOGIN, CRAM-MD5, XOAUTH2, SCRAM-SHA-1/-256, both -PLUS variants) x user/password classes (ASCII, ',' and '=', blanks, UTF-8, strings with a profile-independent normal form (U+00A0, decomposed accents), long, inadmissible: controls/empty) x right/wrong server secret x salt length 0-64 x iteration count 1-20000 (log-uniform) x server nonce suffixes x CRAM challenges x TLS 1.2 (tls-unique) / TLS 1.3 (tls-exporter) / none, through mail.Client (WithSMTPAuth), smtp.Client.Auth directly and twice with the same Auth object. The reference verifiers (internal/sasl) run at the reference server; the channel binding is computed from the SERVER side of the same TLS connection. distinct by case signature",
 		Assumptions: []string{
 			"the reference verifiers pass the RFC 5802/7677/2195/4616 vectors (checked by ./check --setup and at the start of every run)",
 			"for strings whose normalised form depends on the profile (SASLprep vs PRECIS) no expectation is made; inadmissible credentials only must not authenticate against a different secret",
